@@ -20,6 +20,23 @@ Theorem C14_date_roundtrip : forall t, in_scope t -> DateTime (DateString t) = D
 Proof. exact date_roundtrip. Qed.
 Print Assumptions C14_date_roundtrip.
 
+(* The same for a time given as (instant u, location l), with package time as a parameter
+   (zone_offset l u = t.Zone() at u; civil_fields = Year()..Second()): the string written from the
+   offset in effect AT u in l parses back to the instant u with that offset.  The three hypotheses on
+   civil_fields are the trusted facts about package time. *)
+Theorem C14_date_roundtrip_located :
+  forall (Loc : Type) (zone_offset : Loc -> Z -> Z) (civil_fields : Z -> Z -> civil),
+  (forall u off, coff (civil_fields u off) = off) ->
+  (forall u off, valid_civil (civil_fields u off)) ->
+  (forall u off, unix_of (civil_fields u off) = u) ->
+  forall l u,
+    0 <= cy (civil_at Loc zone_offset civil_fields l u) <= 9999 ->
+    Z.rem (zone_offset l u) 60 = 0 -> -86400 < zone_offset l u < 86400 ->
+    exists c, DateTime (DateStringAt Loc zone_offset civil_fields l u) = DOk c /\
+              unix_of c = u /\ coff c = zone_offset l u.
+Proof. exact date_roundtrip_located. Qed.
+Print Assumptions C14_date_roundtrip_located.
+
 (* The written string is exactly D:YYYYMMDDHHmmSSOHH'mm' for the fields of t, with O in {+,-},
    zone hours 0..23, zone minutes 0..59 denoting t's offset. *)
 Theorem C14_datestring_valid : forall t, in_scope t ->
